@@ -39,10 +39,10 @@ Lemma fin_cw ws fin th i w : fin_item ws fin (cw_after_load th i w).
 Proof. unfold cw_after_load. destruct (2 <=? cnt w)%N; simpl; auto. destruct ((cnt w =? 1)%N && negb (oidx_is (proc th) i)); simpl; auto. Qed.
 Lemma boxF_push ws fin b k e : boxF ws fin b -> eokF ws fin e -> boxF ws fin (fst (push_entry b k e)).
 Proof. intros (H1 & H2) He. destruct k; simpl; split; auto; apply Forall_app; split; auto. Qed.
-Lemma boxF_disp ws fin b oi batch b1 : boxF ws fin b -> disp_lock b oi = (batch, b1) -> Forall (eokF ws fin) batch /\ boxF ws fin b1.
+Lemma boxF_disp ws fin b oi batch b1 oi' : boxF ws fin b -> disp_lock b oi = Some (batch, b1, oi') -> Forall (eokF ws fin) batch /\ boxF ws fin b1.
 Proof.
-  intros (H1 & H2). unfold disp_lock. destruct (qi b) eqn:Ei; [destruct oi; [|destruct (qn b) eqn:En]|];
-  intros H; injection H as <- <-; unfold boxF; simpl; repeat split; auto; congruence.
+  intros (H1 & H2) H. destruct (disp_lock_spec _ _ _ _ _ H) as ((ti & tn & -> & Ei & En) & _).
+  unfold boxF. rewrite Ei, En. split; [apply Forall_app; split|split]; destruct ti, tn; auto.
 Qed.
 Lemma boxF_set_intr ws fin b : boxF ws fin b -> boxF ws fin (set_intr b).
 Proof. unfold set_intr. destruct (pol b && negb (intr b)); auto. Qed.
